@@ -756,7 +756,7 @@ def run_shard(shard: dict[str, Any], run: Any) -> None:
     else:
         cases = (case for i, case in enumerate(all_cases(run.tier)) if i % shard["of"] == shard["part"])
     for count, case in enumerate(cases):
-        if shard["fam"] == "random" and count >= 30000:
+        if shard["fam"] == "random" and count >= 12000:
             break
         if count % 64 == 0 and run.out_of_time():
             break
